@@ -221,13 +221,44 @@ fn oracle_a(out: &mut Out, progs: &[Vec<Call>], o: &OutcomeA) {
                 }
             }
         }
+        // values that DECREASE (K-C10-abs-decreasing, Lean: abs_decreasing_wraps_witness): the value a flush loaded is
+        // smaller than the value the previous flush loaded — read off the trace: the value `current` held at each load
+        let vals: Vec<u64> = progs.iter().flatten().filter_map(|c| if let Call::Abs(v) = c { Some(*v) } else { None }).collect();
+        let nondec = vals.windows(2).all(|w| w[0] <= w[1]);
+        let mut loaded: Vec<u64> = vec![];
+        // per flush: the value it loaded is smaller than the value `last` held when it swapped (the value the previous
+        // flush loaded, or the first absolute value) — exact outside the K-C10-abs-race window
+        let mut decreased_at: Vec<bool> = vec![];
+        {
+            let (mut cur, mut lastv, mut ld) = (0u64, 0u64, 0u64);
+            let mut k = 0usize;
+            for (_, id) in tr.iter() {
+                match *id {
+                    "agg.cabs.store_last" => lastv = vals.get(k).copied().unwrap_or(0),
+                    "agg.cabs.store_current" => {
+                        cur = vals.get(k).copied().unwrap_or(0);
+                        k += 1;
+                    }
+                    "agg.cflush.load_current" => {
+                        ld = cur;
+                        loaded.push(cur);
+                    }
+                    "agg.cflush.swap_last" => {
+                        decreased_at.push(ld < lastv);
+                        lastv = ld;
+                    }
+                    _ => {}
+                }
+            }
+        }
         // outside the window (abs_deltas_sum_at_quiescence): all deltas ever sent — the two quiescent flushes
-        // afterwards included — add up to exactly (last value) − (first value), without wrapping
+        // afterwards included — add up to exactly (last value) − (first value), without wrapping (non-decreasing
+        // values) / modulo 2^64 (any values: abs_only_telescopes)
         if !sig {
-            let vals: Vec<u64> = progs.iter().flatten().filter_map(|c| if let Call::Abs(v) = c { Some(*v) } else { None }).collect();
             if let (Some(f), Some(l)) = (vals.first(), vals.last()) {
                 let sent: u128 = o.flushes.iter().chain(o.final_flushes.iter()).flatten().map(|d| *d as u128).sum();
-                if o.final_flushes.len() == 2 && sent != (*l as u128).wrapping_sub(*f as u128) {
+                let ok = if nondec { sent == (*l as u128).wrapping_sub(*f as u128) } else { (sent as u64) == l.wrapping_sub(*f) };
+                if o.final_flushes.len() == 2 && !ok {
                     out.oracle_fail(
                         "absolute-only counter racing the flusher outside the known window: deltas do not add up to last value minus first value",
                         &format!("first {} last {} sent {} (during the run {:?}, afterwards {:?}) trace {:?}", f, l, sent, o.flushes, o.final_flushes, o.run.trace),
@@ -238,12 +269,28 @@ fn oracle_a(out: &mut Out, progs: &[Vec<Call>], o: &OutcomeA) {
         for (i, f) in o.flushes.iter().enumerate() {
             if let Some(d) = f {
                 if *d > maxv {
+                    // this flush loaded a smaller value than the flush before it
+                    let decreased = decreased_at.get(i).copied().unwrap_or(false);
+                    if !sig && decreased {
+                        out.count("a.abs.decreasing.wrapped-delta");
+                        if !abs_decreasing_is_recorded() {
+                            // proposed known finding K-C10-abs-decreasing is not (yet) in known_findings.json: counted,
+                            // replayed on the Lean machine (which wraps in the same way), not reported
+                            continue;
+                        }
+                    }
                     out.oracle_fail(
                         &format!(
                             "absolute-only counter: a flush sent a delta larger than anything that was added (wrapped delta) [{}]",
-                            if sig { "K-abs-race:flush-between-last-and-current-store-of-first-absolute" } else { "no-known-signature" }
+                            if sig {
+                                "K-abs-race:flush-between-last-and-current-store-of-first-absolute"
+                            } else if decreased {
+                                "K-abs-decreasing:flushed-value-smaller-than-the-previous-flushed-value"
+                            } else {
+                                "no-known-signature"
+                            }
                         ),
-                        &format!("flush {} sent {} max value {} trace {:?}", i, d, maxv, o.run.trace),
+                        &format!("flush {} sent {} max value {} values loaded by the flushes {:?} trace {:?}", i, d, maxv, loaded, o.run.trace),
                     );
                 }
             }
@@ -308,6 +355,17 @@ fn oracle_a(out: &mut Out, progs: &[Vec<Call>], o: &OutcomeA) {
     }
 }
 
+/// Is the proposed known finding K-C10-abs-decreasing (an absolute value smaller than the one flushed before it makes the
+/// next flush send a wrapped delta) an entry of known_findings.json?  Then such a delta is reported as an oracle failure
+/// carrying its signature (the check prints it as KNOWN-FINDING); until then it is counted and replayed on the model only.
+fn abs_decreasing_is_recorded() -> bool {
+    static R: std::sync::OnceLock<bool> = std::sync::OnceLock::new();
+    *R.get_or_init(|| {
+        let p = std::path::Path::new(env!("CARGO_MANIFEST_DIR")).join("..").join("known_findings.json");
+        std::fs::read_to_string(p).map(|t| t.contains("K-C10-abs-decreasing")).unwrap_or(false)
+    })
+}
+
 /// number of flushes whose (load `current`, swap `last`) pair overlaps the (`last` store, `current` store) pair of the
 /// absolute() that switches the counter into absolute mode: load before the `current` store and swap after the `last`
 /// store. A load without its swap in the trace cannot happen in a completed run.
@@ -364,6 +422,290 @@ fn one_a(out: &mut Out, progs: &[Vec<Call>], sch: &[usize], legacy: bool) {
     oracle_a(out, progs, &o);
 }
 
+// ------------------------------------------------------------------------------------------------ stream M
+//
+// SEVERAL counter keys of one real `State` — keys sharing a NAME and differing only in their labels, a key without
+// labels, another name — updated by incrementer threads and flushed by ONE flusher under the deterministic scheduler.
+// `State::flush` walks a snapshot `HashMap` whose order differs from flush to flush; the cfg(metrics_verif) hook
+// `verif::note_counter_visit` reports the order.  The executed run is projected onto every key (its updaters' steps on
+// that key + the flusher's three steps on that key per flush) and each projection is (a) replayed on the Lean one-key
+// step machine (`agg run`), (b) judged by the one-key oracles of stream A (conservation, delta = increments between
+// two loads, zero exactly once); the sequence of all visits is replayed on the many-key idle-set model (`agg visits`,
+// Lean: idle_bookkeeping_per_key).
+
+type KeySpec = (&'static str, Vec<(&'static str, &'static str)>);
+
+fn mk_key(spec: &KeySpec) -> Key {
+    if spec.1.is_empty() {
+        Key::from_name(spec.0)
+    } else {
+        Key::from_parts(spec.0, spec.1.iter().map(|(k, v)| Label::new(*k, *v)).collect::<Vec<_>>())
+    }
+}
+
+/// the tags a message of this key must carry (sorted): its own labels, then the global ones
+fn want_tags(spec: &KeySpec, glabels: &[(&'static str, &'static str)]) -> Vec<String> {
+    let mut t: Vec<String> = spec.1.iter().chain(glabels.iter()).map(|(k, v)| format!("{}:{}", k, v)).collect();
+    t.sort();
+    t
+}
+
+fn msg_is(m: &Msg, full_name: &str, tags: &[String]) -> bool {
+    let mut t = m.tags.clone();
+    t.sort();
+    m.name == full_name && t == tags
+}
+
+struct OutcomeM {
+    per_key: Vec<OutcomeA>,
+    per_key_progs: Vec<Vec<Vec<Call>>>,
+    /// all visits in order: (key index, what was sent)
+    visits: Vec<(usize, Option<u64>)>,
+    run: sched::RunResult,
+    bad: Option<String>,
+    inside_walk: bool,
+}
+
+fn execute_m(
+    specs: &[KeySpec],
+    progs: &[Vec<(usize, Call)>],
+    schedule: &[usize],
+    aggressive: bool,
+    prefix: Option<&'static str>,
+    glabels: &[(&'static str, &'static str)],
+) -> OutcomeM {
+    let driver = StateDriver::new(
+        aggressive,
+        false,
+        16,
+        false,
+        glabels.iter().map(|(k, v)| Label::new(*k, *v)).collect(),
+        prefix.map(|p| p.to_string()),
+    );
+    let rec = driver.recorder();
+    let keys: Vec<Key> = specs.iter().map(mk_key).collect();
+    let counters: Vec<metrics::Counter> = keys.iter().map(|k| rec.register_counter(k, &META)).collect();
+    let fulls: Vec<String> = specs.iter().map(|s| match prefix { Some(p) => format!("{}.{}", p, s.0), None => s.0.to_string() }).collect();
+    let tags: Vec<Vec<String>> = specs.iter().map(|s| want_tags(s, glabels)).collect();
+    let driver = Arc::new(Mutex::new(driver));
+    // per flush: (visit order as key indices, per key what was sent)
+    let flushes: Arc<Mutex<Vec<(Vec<usize>, Vec<Option<u64>>)>>> = Arc::new(Mutex::new(vec![]));
+    let bad: Arc<Mutex<Option<String>>> = Arc::new(Mutex::new(None));
+    let do_flush = {
+        let keys = keys.clone();
+        let fulls = fulls.clone();
+        let tags = tags.clone();
+        let aggressive = aggressive;
+        move |driver: &Arc<Mutex<StateDriver>>, writer: &mut Writer| -> Result<(Vec<usize>, Vec<Option<u64>>), String> {
+            let _ = metrics_exporter_dogstatsd::verif::take_counter_visits();
+            driver.lock().unwrap().flush(writer);
+            let order: Vec<usize> = metrics_exporter_dogstatsd::verif::take_counter_visits()
+                .iter()
+                .filter_map(|k| keys.iter().position(|x| x == k))
+                .collect();
+            let payloads = writer.drain();
+            let msgs = parse_payloads(&payloads)?;
+            let mut res = vec![None; keys.len()];
+            for m in &msgs {
+                let Some(i) = (0..keys.len()).find(|i| msg_is(m, &fulls[*i], &tags[*i])) else {
+                    return Err(format!("a flush sent a message that belongs to no registered key (name + tags): {:?}", m));
+                };
+                if res[i].is_some() {
+                    return Err(format!("two messages for one key in one flush: {:?}", msgs));
+                }
+                if m.ty != "c" || m.ts.is_some() != aggressive {
+                    return Err(format!("counter message with the wrong type or timestamp presence for the mode: {:?}", m));
+                }
+                res[i] = Some(m.values[0].parse::<u64>().map_err(|e| format!("{} {:?}", e, m))?);
+            }
+            Ok((order, res))
+        }
+    };
+    let mut bodies: Vec<Box<dyn FnOnce() + Send + 'static>> = vec![];
+    for prog in progs {
+        let prog = prog.clone();
+        let counters = counters.clone();
+        let driver = driver.clone();
+        let flushes = flushes.clone();
+        let bad = bad.clone();
+        let do_flush = do_flush.clone();
+        bodies.push(Box::new(move || {
+            let mut writer = Writer::new(8192, false);
+            for (k, c) in prog {
+                match c {
+                    Call::Inc(n) => counters[k].increment(n),
+                    Call::Abs(v) => counters[k].absolute(v),
+                    Call::Flush => match do_flush(&driver, &mut writer) {
+                        Ok(x) => flushes.lock().unwrap().push(x),
+                        Err(e) => *bad.lock().unwrap() = Some(e),
+                    },
+                }
+            }
+        }));
+    }
+    let run = sched::run(bodies, schedule);
+    let fl = flushes.lock().unwrap().clone();
+    let mut finals: Vec<(Vec<usize>, Vec<Option<u64>>)> = vec![];
+    let mut b = bad.lock().unwrap().clone();
+    if !run.deadlock && !run.timed_out && run.panicked.is_empty() && b.is_none() {
+        let mut writer = Writer::new(8192, false);
+        for _ in 0..2 {
+            match do_flush(&driver, &mut writer) {
+                Ok(x) => finals.push(x),
+                Err(e) => b = Some(e),
+            }
+        }
+    }
+    let nk = specs.len();
+    for (order, _) in fl.iter().chain(finals.iter()) {
+        let mut o = order.clone();
+        o.sort();
+        if o != (0..nk).collect::<Vec<_>>() && b.is_none() {
+            b = Some(format!("a flush did not visit every registered counter exactly once: {:?}", order));
+        }
+    }
+    // project the trace onto the keys
+    let flusher = progs.iter().position(|p| p.iter().any(|(_, c)| matches!(c, Call::Flush)));
+    let mut proj: Vec<Vec<(usize, &'static str)>> = vec![vec![]; nk];
+    let mut ci = vec![0usize; progs.len()];
+    let (mut fi, mut vi) = (0usize, 0usize);
+    let mut inside_walk = false;
+    if b.is_none() {
+        for (t, id) in &run.trace {
+            if *id == "start" {
+                for p in proj.iter_mut() {
+                    p.push((*t, *id));
+                }
+                continue;
+            }
+            if Some(*t) == flusher {
+                let Some(k) = fl.get(fi).and_then(|(o, _)| o.get(vi)).copied() else { continue };
+                proj[k].push((*t, *id));
+                if *id == "agg.cflush.swap_updates" {
+                    vi += 1;
+                    if vi == nk {
+                        vi = 0;
+                        fi += 1;
+                    }
+                }
+            } else {
+                let Some((k, _)) = progs[*t].get(ci[*t]).copied() else { continue };
+                proj[k].push((*t, *id));
+                if vi > 0 || (*id != "agg.cinc.store_abs" && false) {
+                    inside_walk = true; // an updater's step granted while the flusher is between two keys of one flush
+                }
+                if id.ends_with("add_updates") {
+                    ci[*t] += 1;
+                }
+            }
+        }
+    }
+    let mut per_key = vec![];
+    let mut per_key_progs = vec![];
+    for k in 0..nk {
+        let pk: Vec<Vec<Call>> = progs
+            .iter()
+            .map(|p| p.iter().filter(|(kk, c)| *kk == k || matches!(c, Call::Flush)).map(|(_, c)| *c).collect())
+            .collect();
+        per_key_progs.push(pk);
+        per_key.push(OutcomeA {
+            flushes: fl.iter().map(|(_, r)| r[k]).collect(),
+            run: sched::RunResult {
+                trace: proj[k].clone(),
+                choices: vec![],
+                deadlock: run.deadlock,
+                timed_out: run.timed_out,
+                panicked: run.panicked.clone(),
+            },
+            bad: None,
+            final_flushes: finals.iter().map(|(_, r)| r[k]).collect(),
+        });
+    }
+    let visits: Vec<(usize, Option<u64>)> =
+        fl.iter().chain(finals.iter()).flat_map(|(o, r)| o.iter().map(|k| (*k, r[*k])).collect::<Vec<_>>()).collect();
+    OutcomeM { per_key, per_key_progs, visits, run, bad: b, inside_walk }
+}
+
+const KEY_POOL: &[(&str, &[(&str, &str)])] = &[
+    ("reqs", &[("k", "a")]),
+    ("reqs", &[("k", "b")]),
+    ("reqs", &[]),
+    ("reqs", &[("k", "a"), ("z", "1")]),
+    ("other", &[("k", "a")]),
+];
+
+fn one_m(out: &mut Out, specs: &[KeySpec], progs: &[Vec<(usize, Call)>], sch: &[usize], aggressive: bool, prefix: Option<&'static str>, glabels: &[(&'static str, &'static str)]) {
+    let o = execute_m(specs, progs, sch, aggressive, prefix, glabels);
+    if o.run.deadlock || o.run.timed_out || !o.run.panicked.is_empty() {
+        out.oracle_fail("aggregation (several keys): deadlock, timeout or panic", &format!("{:?}", o.run.trace));
+        return;
+    }
+    if let Some(b) = &o.bad {
+        out.oracle_fail("flush of a state with several counter keys produced malformed, duplicated or foreign messages", b);
+        return;
+    }
+    let same_name = specs.iter().enumerate().any(|(i, a)| specs.iter().skip(i + 1).any(|b| a.0 == b.0));
+    out.count(if same_name { "m.keys.sharing-a-name" } else { "m.keys.distinct-names" });
+    out.count(&format!("m.keys.{}", specs.len()));
+    if o.inside_walk {
+        out.count("m.update.granted.between.two.keys.of.one.flush");
+        out.nontrivial();
+    }
+    for k in 0..specs.len() {
+        let ok = &o.per_key[k];
+        let pk = &o.per_key_progs[k];
+        let taken: Vec<usize> = ok.run.trace.iter().map(|(t, _)| *t).collect();
+        out.op(&format!("agg run 0 {} {}", list(pk.iter().map(|p| prog_tok(p))), sched::sched_tok(&taken)), &answer_a(ok));
+        oracle_a(out, pk, ok);
+        if ok.run.trace.windows(2).any(|w| w[0].1 == "agg.cinc.add_current" && w[1].1.starts_with("agg.cflush")) {
+            out.count("m.flush.between.add_current.and.add_updates");
+            out.nontrivial();
+        }
+        if pk.iter().flatten().all(|c| matches!(c, Call::Flush)) {
+            out.count("m.key.never-updated");
+        }
+    }
+    // the many-key idle set: every visit in order (a skipped delta is zero — the one-key oracles above have checked that)
+    out.op(
+        &format!("agg visits {}", list(o.visits.iter().map(|(k, d)| format!("{}:{}:1", k, d.unwrap_or(0))))),
+        &list(o.visits.iter().map(|(_, d)| if d.is_some() { "w".to_string() } else { "s".to_string() })),
+    );
+}
+
+fn gen_m(r: &mut Rng) -> (Vec<KeySpec>, Vec<Vec<(usize, Call)>>, Vec<usize>, bool, Option<&'static str>, Vec<(&'static str, &'static str)>) {
+    let nk = r.range(2, 3);
+    let mut idx: Vec<usize> = (0..KEY_POOL.len()).collect();
+    // mostly keys sharing the name "reqs"
+    let mut specs: Vec<KeySpec> = vec![];
+    for _ in 0..nk {
+        let j = r.below(idx.len());
+        let p = KEY_POOL[idx.remove(j)];
+        specs.push((p.0, p.1.to_vec()));
+    }
+    let nt = r.range(1, 3);
+    let mut progs: Vec<Vec<(usize, Call)>> = vec![];
+    for _ in 0..nt {
+        let k = r.range(1, 3);
+        // an updater mostly stays on a subset of the keys, so that some key is idle while another is active
+        let home = r.below(nk);
+        progs.push((0..k).map(|_| (if r.chance(2, 3) { home } else { r.below(nk) }, Call::Inc(*r.pick(&[0u64, 1, 2, 7, u64::MAX])))).collect());
+    }
+    let nf = r.range(2, 4);
+    progs.push(vec![(0, Call::Flush); nf]);
+    let n = progs.len();
+    let mut sch = vec![];
+    let mut cur = r.below(n);
+    for _ in 0..(40 + 3 * nk * nf) {
+        if r.chance(1, 2) {
+            cur = if r.chance(1, 2) { n - 1 } else { r.below(n) };
+        }
+        sch.push(cur);
+    }
+    let prefix = if r.chance(1, 3) { Some("svc") } else { None };
+    let glabels = if r.chance(1, 3) { vec![("env", "t")] } else { vec![] };
+    (specs, progs, sch, r.chance(1, 2), prefix, glabels)
+}
+
 // ------------------------------------------------------------------------------------------------ stream B
 
 fn stream_b(r: &mut Rng, out: &mut Out) {
@@ -373,11 +715,58 @@ fn stream_b(r: &mut Rng, out: &mut Out) {
     let glabels = if r.chance(1, 2) { vec![Label::new("env", "t")] } else { vec![] };
     let mut driver = StateDriver::new(aggressive, false, 16, as_dist, glabels.clone(), prefix.clone());
     let rec = driver.recorder();
-    let mut writer = Writer::new(if r.chance(1, 3) { 64 } else { 8192 }, false);
     let nkeys = r.range(1, 3);
+    // `near`: counters only, and a payload limit around the length of their lines, so that SOME writes of State::flush
+    // are rejected (a longer value, a key with one more label) and others are not
+    let near = r.chance(1, 5);
     // per key: kind 0 counter(incr) 1 counter(abs) 2 gauge 3 histogram
-    let kinds: Vec<usize> = (0..nkeys).map(|_| r.below(4)).collect();
-    let names: Vec<String> = (0..nkeys).map(|i| format!("k{}", i)).collect();
+    let kinds: Vec<usize> = (0..nkeys).map(|_| if near { r.below(2) } else { r.below(4) }).collect();
+    // keys: own names, or ONE shared name with different labels (and the bare name)
+    let shared = r.chance(1, 2);
+    let names: Vec<String> = (0..nkeys).map(|i| if shared { "req".to_string() } else { format!("k{}", i) }).collect();
+    let klabels: Vec<Vec<(String, String)>> = (0..nkeys)
+        .map(|i| if shared { (0..i).map(|j| (format!("l{}", j), "x".to_string())).collect() } else if r.chance(1, 3) { vec![("l".to_string(), "x".to_string())] } else { vec![] })
+        .collect();
+    let mk = |i: usize| -> Key {
+        if klabels[i].is_empty() {
+            Key::from_name(names[i].clone())
+        } else {
+            Key::from_parts(names[i].clone(), klabels[i].iter().map(|(k, v)| Label::new(k.clone(), v.clone())).collect::<Vec<_>>())
+        }
+    };
+    // is message `m` one of key `i`? full name and exactly the key's labels (+ the global one)
+    let is_mine = |m: &Msg, i: usize, full_name: &str| -> bool {
+        let mut want: Vec<String> = klabels[i].iter().map(|(k, v)| format!("{}:{}", k, v)).collect();
+        if !glabels.is_empty() {
+            want.push("env:t".to_string());
+        }
+        want.sort();
+        let mut got = m.tags.clone();
+        got.sort();
+        m.name == full_name && got == want
+    };
+    // the exact line `write_counter` produces for (key, value), from the real serialiser on a roomy writer
+    let line_len = |i: usize, v: u64| -> usize {
+        let mut w = Writer::new(8192, false);
+        w.write_counter(&mk(i), v, if aggressive { Some(1_700_000_000) } else { None }, prefix.as_deref(), &glabels);
+        w.drain().first().map(|p| p.len()).unwrap_or(0)
+    };
+    let limit: usize = if near {
+        (line_len(0, 5) + r.range(0, 14)).saturating_sub(2)
+    } else if r.chance(1, 3) {
+        64
+    } else {
+        8192
+    };
+    let mut writer = Writer::new(limit, false);
+    let abs_any_order: Vec<bool> = (0..nkeys).map(|_| r.chance(1, 4)).collect();
+    let mut dropped_sum = vec![0u64; nkeys];
+    let mut prev_zero = vec![false; nkeys];
+    let mut abs_last_flushed: Vec<Option<u64>> = vec![None; nkeys];
+    let mut visit_ops: Vec<String> = vec![];
+    let mut visit_ans: Vec<String> = vec![];
+    // a key exists in the registry (and in a flush's snapshot) from its first use
+    let mut registered = vec![false; nkeys];
     let full = |n: &str| match &prefix {
         Some(p) => format!("{}.{}", p, n),
         None => n.to_string(),
@@ -396,7 +785,8 @@ fn stream_b(r: &mut Rng, out: &mut Out) {
         let flush = step == nops || r.chance(1, 4);
         if !flush {
             let i = r.below(nkeys);
-            let key = Key::from_name(names[i].clone());
+            let key = mk(i);
+            registered[i] = true;
             match kinds[i] {
                 0 => {
                     let n = *r.pick(&[0u64, 1, 5, 1 << 40, u64::MAX]);
@@ -407,13 +797,18 @@ fn stream_b(r: &mut Rng, out: &mut Out) {
                 1 => {
                     let last = abs_vals[i].last().copied().unwrap_or(0);
                     // non-decreasing over the whole u64 range (steps beyond 2^32 and 2^63; the first value may be huge)
-                    let v = if abs_vals[i].is_empty() {
+                    let v = if abs_any_order[i] {
+                        *r.pick(&[0u64, 7, 100, 1 << 33, (1 << 63) + 5, u64::MAX])
+                    } else if abs_vals[i].is_empty() {
                         *r.pick(&[0u64, 7, 1 << 33, (1 << 63) + 5])
                     } else {
                         last.saturating_add(*r.pick(&[0u64, 1, 9, 1000, 1 << 33, 1 << 62, 1 << 63]))
                     };
                     rec.register_counter(&key, &META).absolute(v);
                     abs_vals[i].push(v);
+                    if abs_last_flushed[i].is_none() {
+                        abs_last_flushed[i] = Some(v); // the mode-switching absolute stores `last := v`
+                    }
                 }
                 2 => {
                     let v = *r.pick(&[0.0f64, 1.5, -3.25, 1e9, f64::MIN_POSITIVE, 0.1, 1e300]);
@@ -450,7 +845,7 @@ fn stream_b(r: &mut Rng, out: &mut Out) {
             continue;
         }
         out.count("b.flush");
-        driver.flush(&mut writer);
+        let counts = driver.flush(&mut writer);
         let payloads = writer.drain();
         let msgs = match parse_payloads(&payloads) {
             Ok(m) => m,
@@ -472,12 +867,74 @@ fn stream_b(r: &mut Rng, out: &mut Out) {
             }
         }
         for m in &msgs {
-            if !names.iter().any(|n| full(n) == m.name) {
+            if !(0..nkeys).any(|i| is_mine(m, i, &full(&names[i]))) {
                 out.oracle_fail("a flush sent a message for a metric that was never registered", &format!("{:?}", m));
             }
         }
+        // counters: which message must be there — decided by the flushed delta (zero once), dropped ONLY when its line is
+        // longer than the payload limit (then the serializer failure is counted); the idle mark is made before the write
+        let mut expect_rejected = 0u64;
         for i in 0..nkeys {
-            let mine: Vec<&Msg> = msgs.iter().filter(|m| m.name == full(&names[i])).collect();
+            if kinds[i] > 1 || !registered[i] {
+                continue;
+            }
+            let exp_delta = if kinds[i] == 0 {
+                total_inc[i].wrapping_sub(sent_sum[i].wrapping_add(dropped_sum[i]))
+            } else {
+                match (abs_vals[i].last(), abs_last_flushed[i]) {
+                    (Some(c), Some(l)) => {
+                        if *c < l {
+                            out.count("b.abs.decreasing.wrapped-delta");
+                        }
+                        c.wrapping_sub(l)
+                    }
+                    _ => 0,
+                }
+            };
+            if kinds[i] == 1 {
+                if let Some(c) = abs_vals[i].last() {
+                    if abs_decreasing_is_recorded() && *c < abs_last_flushed[i].unwrap_or(0) {
+                        out.oracle_fail(
+                            "absolute-only counter: a flush sent a delta larger than anything that was added (wrapped delta) [K-abs-decreasing:flushed-value-smaller-than-the-previous-flushed-value]",
+                            &format!("{} values {:?} previously flushed {:?}", names[i], abs_vals[i], abs_last_flushed[i]),
+                        );
+                    }
+                    abs_last_flushed[i] = Some(*c);
+                }
+            }
+            let decided = !(exp_delta == 0 && prev_zero[i]);
+            prev_zero[i] = exp_delta == 0;
+            let too_long = line_len(i, exp_delta) > limit;
+            let mine: Vec<&Msg> = msgs.iter().filter(|m| is_mine(m, i, &full(&names[i]))).collect();
+            let present = !mine.is_empty();
+            if present != (decided && !too_long) {
+                out.oracle_fail(
+                    "a counter message is missing or unexpected: a changed counter or its one zero may only be dropped when its line is longer than the payload limit",
+                    &format!("key {} {:?} delta {} decided {} line {} limit {} got {:?}", names[i], klabels[i], exp_delta, decided, line_len(i, exp_delta), limit, mine),
+                );
+            }
+            if present && mine[0].values[0].parse::<u64>().ok() != Some(exp_delta) {
+                out.oracle_fail("a counter message does not carry the delta since the previous flush", &format!("key {} {:?} want {} got {:?}", names[i], klabels[i], exp_delta, mine));
+            }
+            if decided && too_long {
+                dropped_sum[i] = dropped_sum[i].wrapping_add(exp_delta);
+                expect_rejected += 1;
+                if exp_delta != 0 {
+                    zero_since_change[i] = false; // the counter did change; only its message was dropped
+                }
+                out.count(if exp_delta == 0 { "b.rejected.zero" } else { "b.rejected.delta" });
+            }
+            visit_ops.push(format!("{}:{}:{}", i, exp_delta, !too_long as u8));
+            visit_ans.push(if present { "w" } else if decided && too_long { "r" } else { "s" }.to_string());
+        }
+        if near && counts.packets_dropped_serializer != expect_rejected {
+            out.oracle_fail(
+                "the serializer-failure count of a flush is not the number of counter lines that did not fit",
+                &format!("counted {} expected {}", counts.packets_dropped_serializer, expect_rejected),
+            );
+        }
+        for i in 0..nkeys {
+            let mine: Vec<&Msg> = msgs.iter().filter(|m| is_mine(m, i, &full(&names[i]))).collect();
             match kinds[i] {
                 0 => {
                     let d: Option<u64> = mine.first().and_then(|m| m.values[0].parse().ok());
@@ -495,7 +952,7 @@ fn stream_b(r: &mut Rng, out: &mut Out) {
                             zero_since_change[i] = false;
                         }
                     }
-                    if sent_sum[i] != total_inc[i] {
+                    if sent_sum[i].wrapping_add(dropped_sum[i]) != total_inc[i] {
                         out.oracle_fail("counter deltas sent so far do not add up to the increments made", &format!("{} sent {} made {}", names[i], sent_sum[i], total_inc[i]));
                     }
                     changed_since_flush[i] = false;
@@ -504,8 +961,9 @@ fn stream_b(r: &mut Rng, out: &mut Out) {
                     let d: u64 = mine.first().and_then(|m| m.values[0].parse().ok()).unwrap_or(0);
                     sent_sum[i] = sent_sum[i].wrapping_add(d);
                     if let (Some(f), Some(l)) = (abs_vals[i].first(), abs_vals[i].last()) {
-                        if sent_sum[i] != l - f {
-                            out.oracle_fail("absolute-only counter: deltas do not add up to last value minus first value", &format!("{} sent {} want {}", names[i], sent_sum[i], l - f));
+                        // modulo 2^64 (exact for non-decreasing values): abs_only_telescopes
+                        if sent_sum[i].wrapping_add(dropped_sum[i]) != l.wrapping_sub(*f) {
+                            out.oracle_fail("absolute-only counter: deltas do not add up to last value minus first value", &format!("{} sent {} dropped {} want {}", names[i], sent_sum[i], dropped_sum[i], l.wrapping_sub(*f)));
                         }
                     }
                 }
@@ -541,6 +999,16 @@ fn stream_b(r: &mut Rng, out: &mut Out) {
                 }
             }
         }
+    }
+    // counters: all visits of all flushes on the many-key idle-set model with rejected writes (`visits`)
+    if !visit_ops.is_empty() {
+        out.op(&format!("agg visits {}", list(visit_ops.iter().cloned())), &list(visit_ans.iter().cloned()));
+    }
+    if near {
+        out.count("b.near-limit");
+    }
+    if shared {
+        out.count("b.keys.sharing-a-name");
     }
     // gauges: the sequence of flushed values is what the model's linearization gives
     for i in 0..nkeys {
@@ -1012,12 +1480,19 @@ fn gen_a(r: &mut Rng) -> (Vec<Vec<Call>>, Vec<usize>) {
         let mut v = r.range(1, 50) as u64;
         let k = r.range(1, 3);
         let mut p = vec![];
+        let any_order = r.chance(1, 3);
+        let k = if any_order { k.max(2) } else { k };
         for _ in 0..k {
             p.push(Call::Abs(v));
-            v += r.range(0, 20) as u64;
+            if any_order {
+                // values in any order (CounterFn::absolute: "an older (smaller) value after ... the latest (larger) value")
+                v = *r.pick(&[0u64, 3, 40, 100, (1 << 63) + 1, u64::MAX]);
+            } else {
+                v += r.range(0, 20) as u64;
+            }
         }
         progs.push(p);
-        progs.push(vec![Call::Flush; r.range(1, 3)]);
+        progs.push(vec![Call::Flush; if any_order { r.range(2, 4) } else { r.range(1, 3) }]);
         let mut sch = vec![];
         let mut cur = r.below(2);
         for _ in 0..40 {
@@ -1058,6 +1533,8 @@ pub fn run(cfg: &Cfg, out: &mut Out) {
         (vec![vec![Call::Abs(10), Call::Abs(25)], vec![Call::Flush, Call::Flush]], vec![0, 1, 0, 0, 0, 0, 1, 1, 1, 0, 0, 0, 1, 1, 1]),
         // K-C10-abs-race: flush between the `last` store and the `current` store of the first absolute
         (vec![vec![Call::Abs(10)], vec![Call::Flush]], vec![0, 1, 0, 0, 1, 1, 1, 0, 0]),
+        // K-C10-abs-decreasing (Lean: abs_decreasing_wraps_outside_window): absolute(100); flush; absolute(40); flush
+        (vec![vec![Call::Abs(100), Call::Abs(40)], vec![Call::Flush, Call::Flush]], vec![0, 0, 0, 0, 0, 1, 1, 1, 1, 0, 0, 0, 1, 1, 1]),
     ];
     for (progs, sch) in corpus {
         out.case("corpus");
@@ -1068,6 +1545,30 @@ pub fn run(cfg: &Cfg, out: &mut Out) {
         out.case(&format!("A seed={} i={}", cfg.seed, i));
         let (progs, sch) = gen_a(&mut r);
         one_a(out, &progs, &sch, legacy);
+    }
+    // stream M corpus: `reqs{k=a}` idle from the start, `reqs{k=b}` active over three flushes, the increment split around
+    // the second flush's walk; and the same with the unlabelled key of that name
+    for specs in [
+        vec![("reqs", vec![("k", "a")]), ("reqs", vec![("k", "b")])],
+        vec![("reqs", vec![]), ("reqs", vec![("k", "b")]), ("other", vec![("k", "b")])],
+    ] {
+        out.case("corpus M");
+        let b = 1usize;
+        let progs = vec![vec![(b, Call::Inc(4)), (b, Call::Inc(3))], vec![(0, Call::Flush); 4]];
+        let nk = specs.len();
+        let mut sch = vec![0, 0, 0, 0, 1];
+        sch.extend(std::iter::repeat(1).take(3 * nk));
+        sch.extend([0, 0]);
+        sch.extend(std::iter::repeat(1).take(2));
+        sch.extend([0]);
+        sch.extend(std::iter::repeat(1).take(9 * nk));
+        one_m(out, &specs, &progs, &sch, false, None, &[]);
+    }
+    for i in 0..cfg.cases {
+        let mut r = root.fork(4_000_000 + i as u64);
+        out.case(&format!("M seed={} i={}", cfg.seed, i));
+        let (specs, progs, sch, aggressive, prefix, glabels) = gen_m(&mut r);
+        one_m(out, &specs, &progs, &sch, aggressive, prefix, &glabels);
     }
     for i in 0..cfg.cases {
         let mut r = root.fork(1_000_000 + i as u64);
